@@ -5,8 +5,11 @@ Per call  receiver.method(args)  three things are compared with what the real `m
   A. the Coq impl-model (Builtins/StrImpl.v, NumBuiltins.v, ParseFloat.v; extracted)   -> correspondence
   B. the Coq specification (Builtins/StrSpec.v, NumBuiltins.v spec_*; extracted)       -> the property
   C. an independent oracle written with Python's own str/bytes/int/fractions (below)    -> the property
-plus the declared result type (`typeof call`) against the Coq table `declared` (get_property_type)."""
-import ctypes, math, os, re, struct
+plus the declared result type (`typeof call`) against the Coq table `declared` (get_property_type).
+Fixed families next to the call stream: string histories, positions, constant string expressions (repetition /
+concatenation / const) indexed at every valid position and one past the end (const_string_cases), `+=` / `*=` on a
+str held in a variable, list element, object field, map value (str_compound_cases)."""
+import ctypes, math, os, re, shutil, struct
 from fractions import Fraction
 from . import core, programs, extract
 
@@ -450,6 +453,159 @@ def string_positions(ctx, binary):
                    {"program": src, "expected": exp, "observed": got, "rc": rc, "stderr": err[-400:], "how": "mscript run t.ms -q"})
     ctx.cov["string_position_programs"] = n
     ctx.cov["string_position_programs_mixing_units"] = known
+    return n
+
+
+# ---- indexing a string whose text is fixed by a CONSTANT expression (literal, repetition, concatenation, a `const` bound to
+# one): the compiler knows such a string's length and refuses a constant index beyond it, so the length it computes for
+# `*` and `+` must be the length of the value.  Fixed family: every expression x (direct | const | const of const) x every
+# valid position (constant index and index held in a variable) -> the character; one past the end -> no value.  ASCII only.
+CONST_STR_EXPRS = [
+    ('"abc"', "abc"), ('"ab" * 3', "ab" * 3), ('3 * "ab"', "ab" * 3), ('"=-" * 4', "=-" * 4), ('3 * "xyz"', "xyz" * 3), ('"ab" * B3', "ab" * 3), ('B2 * "abc"', "abc" * 2),
+    ('"abc" * 1', "abc"), ('1 * "abc"', "abc"), ('"a" * 5', "aaaaa"), ('"ab" * 0', ""), ('0 * "ab"', ""), ('"" * 3', ""),
+    ('"ab" + "cde"', "abcde"), ('"" + "cde"', "cde"), ('"ab" + ""', "ab"), ('"ab" + 7', "ab7"), ('7 + "ab"', "7ab"), ('"ab" + 123 + "c"', "ab123c"), ('"ab" + true', "abtrue"),
+    ('"ab" * 2 + "c"', "ababc"), ('"c" + "ab" * 2', "cabab"), ('("ab" * 2) + ("cd" * 2)', "ababcdcd"), ('("a" + "bc") * 2', "abcabc"), ('2 * ("a" + "bc")', "abcabc"),
+    ('("ab" * 2) * 2', "abababab"), ('2 * ("ab" * 2)', "abababab"), ('("ab" + "c") + ("d" * 3)', "abcddd"), ('"x" + "ab" * 2 + "y"', "xababy"), ('"ab" * (1 + 2)', "ababab"),
+]
+CONST_STR_FORMS = ["direct", "const", "const-of-const-plus", "const-of-const-times", "variable"]
+
+
+def const_string_cases():
+    """-> [(id, program, expected lines or None = must not yield a value)]"""
+    out = []
+    for expr, text in CONST_STR_EXPRS:
+        for form in CONST_STR_FORMS:
+            if form == "direct":
+                pre, recv, cur = "", "(%s)" % expr, text
+            elif form == "const":
+                pre, recv, cur = "const bar = %s\n" % expr, "bar", text
+            elif form == "const-of-const-plus":
+                pre, recv, cur = 'const bar = %s\nconst baz = bar + "!?"\n' % expr, "baz", text + "!?"
+            elif form == "const-of-const-times":
+                pre, recv, cur = "const bar = %s\nconst baz = bar * 2\n" % expr, "baz", text * 2
+            else:
+                pre, recv, cur = "bar = %s\n" % expr, "bar", text          # a plain variable forgets the length: the run-time check decides
+            body = pre + ("print %s.len()\n" % recv if form != "direct" else "")
+            exp = [str(len(cur))] if form != "direct" else []
+            for i in range(len(cur)):
+                body += "print %s[%d]\n" % (recv, i)
+                exp.append(cur[i])
+            if cur:
+                body += "k = %d\nprint %s[k]\n" % (len(cur) - 1, recv)
+                exp.append(cur[-1])
+            out.append(("%s/%s/valid-positions" % (expr, form), body, exp))
+            out.append(("%s/%s/one-past-the-end" % (expr, form), pre + 'print "before"\nprint %s[%d]\nprint "after"\n' % (recv, len(cur)), None))
+    return out
+
+
+def constant_string_indexing(ctx, binary):
+    base = ctx.mktemp()
+    cases = const_string_cases()
+
+    def one(c):
+        d = programs.materialize({"files": {"t.ms": c[1]}}, base)
+        r = programs.run_bin(binary, ["run", "t.ms", "-q"], d)
+        shutil.rmtree(d, ignore_errors=True)
+        return r
+    n = 0
+    for (cid, src, exp), (rc, out, err) in zip(cases, programs.pmap(one, cases)):
+        n += 1
+        got = out.split("\n")[:-1]
+        rejected = "Did not compile successfully" in err
+        why = [l.strip() for l in (out + err).splitlines() if l.strip().startswith("=")][:2]
+        rep = {"case": cid, "program": src, "expected": exp, "observed": got, "rc": rc, "stderr": (out + err)[-500:], "how": "mscript run t.ms -q"}
+        if exp is None:
+            # outside the domain: a compile-time refusal or a run-time stop, never a value, never the statement after it
+            if rejected and "before" not in got:
+                continue
+            if rc == 0 or got != ["before"]:
+                ctx.report("constant-string-index/past-the-end-yields-value", "indexing the constant string %s one past its end: printed %r (exit %d); the index is outside the string, no value may be produced"
+                           % (cid, got, rc), rep)
+            continue
+        if rejected:
+            ctx.report("constant-string-index/valid-index-rejected", "indexing the constant string %s at a valid position is refused by the compiler: %s; every index below the length of the value is in the domain"
+                       % (cid, why), rep)
+        elif rc != 0 or got != exp:
+            ctx.report("constant-string-index/wrong-character", "indexing the constant string %s: printed %r (exit %d), the value demands %r" % (cid, got, rc, exp), rep)
+    ctx.cov["constant_string_index_programs"] = n
+    return n
+
+
+# ---- `+=` (concatenation) and `*=` (repetition) on a str, the target being a variable, a list element, an object field (from
+# outside and through `self`), a map value; str and non-str right operands; applied twice (left-to-right accumulation)
+STR_COMPOUND_TARGETS = ["variable", "element", "field", "self-field", "map-value"]
+STR_COMPOUND_RHS = [("+", V("str", "X")), ("+", V("str", "")), ("+", V("str", "ab")), ("+", V("int", 7)), ("+", V("int", -3)), ("+", V("big", 12)), ("+", V("byte", 5)),
+                    ("+", V("bool", True)), ("+", V("float", f2b(2.5))), ("*", V("int", 2)), ("*", V("int", 3)), ("*", V("int", 1)), ("*", V("int", 0)), ("*", V("big", 2)),
+                    ("*", V("int", -1))]
+
+
+def str_compound_cases():
+    """-> [(id, program, expected typed lines or None = the program must stop)]"""
+    out = []
+    start = "cd"
+    for op, rhs in STR_COMPOUND_RHS:
+        for inline in (True, False):
+            if not inline and rhs[0] not in ("str", "int"):
+                continue
+            for t in STR_COMPOUND_TARGETS:
+                lit = ms_expr(rhs)
+                ty = {"str": "str", "int": "int", "big": "bigint", "byte": "byte", "bool": "bool", "float": "float"}[rhs[0]]
+                use = lit if inline else "y"
+                step = (lambda cur: cur + plain(rhs, 0)) if op == "+" else (lambda cur: cur * rhs[1])
+                fails = op == "*" and rhs[1] < 0
+                # applied twice for `+` (an operand order mistake cannot hide behind a palindrome), then the other operator
+                ops = [(op, use)] * (2 if op == "+" else 1) + ([("*", "2")] if op == "+" else [("+", '"-z"')])
+                cur = start
+                for o, u in ops:
+                    cur = cur + plain(rhs, 0) if (o, u) == (op, use) and op == "+" else (cur * rhs[1] if (o, u) == (op, use) else (cur * 2 if o == "*" else cur + "-z"))
+                pre = "" if inline else "y: %s = %s\n" % (ty, lit)
+                if t == "variable":
+                    src = pre + 's = "%s"\n' % start + "".join("s %s= %s\n" % ou for ou in ops) + "print s\nprint s.len()\n"
+                    exp = ["<Str>" + cur, "<Int>%d" % len(cur)]
+                elif t == "element":
+                    src = pre + 'l: [str...] = ["ab", "%s"]\n' % start + "".join("l[1] %s= %s\n" % ou for ou in ops) + "r = l[1]\nprint r\nq = l[0]\nprint q\nprint r.len()\n"
+                    exp = ["<Str>" + cur, "<Str>ab", "<Int>%d" % len(cur)]
+                elif t == "field":
+                    src = ('class Label {\n\ttext: str\n\tother: str\n\tconstructor(self) {\n\t\tself.text = "%s"\n\t\tself.other = "ab"\n\t}\n}\n' % start + pre + "o = Label()\n"
+                           + "".join("o.text %s= %s\n" % ou for ou in ops) + "r = o.text\nprint r\nq = o.other\nprint q\nprint r.len()\n")
+                    exp = ["<Str>" + cur, "<Str>ab", "<Int>%d" % len(cur)]
+                elif t == "self-field":
+                    meths = "".join("\tfn step%d(self%s) {\n\t\tself.text %s= %s\n\t}\n" % (j, "" if (inline or u != "y") else ", y: %s" % ty, o, u) for j, (o, u) in enumerate(ops))
+                    calls = "".join("o.step%d(%s)\n" % (j, "" if (inline or u != "y") else "y") for j, (o, u) in enumerate(ops))
+                    src = ('class Label {\n\ttext: str\n\tother: str\n\tconstructor(self) {\n\t\tself.text = "%s"\n\t\tself.other = "ab"\n\t}\n%s}\n' % (start, meths) + pre + "o = Label()\n"
+                           + calls + "r = o.text\nprint r\nq = o.other\nprint q\nprint r.len()\n")
+                    exp = ["<Str>" + cur, "<Str>ab", "<Int>%d" % len(cur)]
+                else:
+                    src = (pre + 'm = map[str, str]\nm["k"] = "%s"\nm["j"] = "ab"\n' % start + "".join('m["k"] %s= %s\n' % ou for ou in ops)
+                           + 'r = m["k"]\nprint r\nq = m["j"]\nprint q\nprint r.len()\n')
+                    exp = ["<Str>" + cur, "<Str>ab", "<Int>%d" % len(cur)]
+                out.append(("str %s= %s (%s)/%s" % (op, lit, "literal" if inline else "variable", t), src, None if fails else exp))
+    return out
+
+
+def string_compound_targets(ctx, binary):
+    base = ctx.mktemp()
+    cases = str_compound_cases()
+
+    def one(c):
+        d = programs.materialize({"files": {"t.ms": c[1]}}, base)
+        r = programs.run_bin(binary, ["run", "t.ms", "-q"], d, {"MSCRIPT_VERIF_TYPED_PRINT": "1"})
+        shutil.rmtree(d, ignore_errors=True)
+        return r
+    n = 0
+    for (cid, src, exp), (rc, out, err) in zip(cases, programs.pmap(one, cases)):
+        n += 1
+        got = out.split("\n")[:-1]
+        rep = {"case": cid, "program": src, "expected": exp, "observed": got, "rc": rc, "stderr": (out + err)[-500:], "how": "MSCRIPT_VERIF_TYPED_PRINT=1 mscript run t.ms -q"}
+        if "Did not compile successfully" in err:
+            ctx.report("string-compound/rejected", "a fixed case of `+=` / `*=` on a str (%s) is rejected by the compiler: %s"
+                       % (cid, [l.strip() for l in (out + err).splitlines() if l.strip().startswith("=")][:1]), rep, found_input=False)
+        elif exp is None:
+            if rc == 0 or got:
+                ctx.report("string-compound/negative-count-yields-value", "%s: repetition by a negative count must stop the program; printed %r (exit %d)" % (cid, got, rc), rep)
+        elif rc != 0 or got != exp:
+            ctx.report("string-compound/" + cid.split("/")[-1], "%s: printed %r (exit %d); `s += t` is s followed by the text of t, `s *= n` is s repeated n times: %r" % (cid, got, rc, exp), rep)
+    ctx.cov["string_compound_assignment_programs"] = n
     return n
 
 
@@ -1271,7 +1427,8 @@ def run(ctx):
             nontrivial.add(repr(case))
     nhist = string_histories(ctx, binary)
     npos = string_positions(ctx, binary)
-    spec_fail += sum(1 for v in ctx.viol if v[0].startswith(("string-history", "string-positions")))
+    npos += constant_string_indexing(ctx, binary) + string_compound_targets(ctx, binary)
+    spec_fail += sum(1 for v in ctx.viol if v[0].startswith(("string-history", "string-positions", "constant-string-index", "string-compound")) and not v[0].endswith("/rejected"))
     ctx.cov["evaluations"] = len(cases) + nhist + npos
     ctx.cov["distinct_nontrivial"] = len(nontrivial)
     ctx.cov["rule"] = ("one evaluation = one built-in call executed by the real interpreter and compared with the Coq impl-model, the Coq "
